@@ -71,3 +71,37 @@ func firstDiff(a, b []byte) int {
 	}
 	return min(len(a), len(b))
 }
+
+// c17WriteBufEdges: every amount of spare capacity from 0 to 24 bytes against every varint
+// length, a single byte and short writes: whatever the buffer does differently when "it still
+// fits" shows at one particular fill level only.
+func c17WriteBufEdges(r *Run) {
+	values := []int64{0, -1, 63, 64, -64, -65, 8191, 8192, 1 << 20, 1 << 27, 1 << 34, 1 << 41, 1 << 48, 1 << 55, 1<<62 - 1, 1 << 62, -(1 << 62), -(1 << 62) - 1, 1<<63 - 1, -1 << 63}
+	for spare := 0; spare <= 24; spare++ {
+		for _, filled := range []int{0, 1, 7} {
+			for _, v := range values {
+				func() {
+					buf := make([]byte, filled, filled+spare)
+					for i := range buf {
+						buf[i] = byte(0xA0 + i)
+					}
+					want := append(append([]byte{}, buf...), specVarint(v)...)
+					defer func() {
+						if p := recover(); p != nil {
+							r.Fail(-1, "writebuf", fmt.Sprintf("Varint(%d) on a WriteBuf holding %d bytes with %d bytes of spare capacity panics: %v", v, filled, spare, p), map[string]any{"value": v, "spare": spare, "filled": filled})
+						}
+					}()
+					w := avro.NewWriteBuf(buf)
+					w.Varint(v)
+					w.Byte(0x5A)
+					w.Write([]byte{1, 2, 3})
+					want = append(want, 0x5A, 1, 2, 3)
+					r.Count("writebuf-edges")
+					if !bytes.Equal(w.Bytes(), want) || w.Len() != len(want) {
+						r.Fail(-1, "writebuf", fmt.Sprintf("Varint(%d), Byte, Write(3 bytes) on a WriteBuf holding %d bytes with %d bytes of spare capacity: Bytes is %x, a plain append gives %x", v, filled, spare, w.Bytes(), want), map[string]any{"value": v, "spare": spare, "filled": filled})
+					}
+				}()
+			}
+		}
+	}
+}
